@@ -44,7 +44,7 @@ COQ_TIMEOUT = 2400
 # the full parser model's correspondence (shared with C07/C10) runs inside the quick check; the thorough tier
 # has a wall-clock budget of its own and leaves the parser stream's thorough run to C07/C10
 import sys as _sys
-EXTRA_STREAM_MODULES = [] if ("thorough" in _sys.argv or os.environ.get("VERIF_TIER") == "thorough") else ["parser"]
+EXTRA_STREAM_MODULES = ["pipeline"] if ("thorough" in _sys.argv or os.environ.get("VERIF_TIER") == "thorough") else ["parser", "pipeline"]
 EXTRA_COQ_TARGETS = ["proofs/F64Proofs.vo", "proofs/PrattProofs.vo", "proofs/TemplateProofs.vo",
                      "theories/SimpleTypes.vo"]
 
